@@ -26,12 +26,12 @@ structure AnyM where
   M : Machine St Loc Int Int
   nexts : St → Nat
 
-def listNext : List Int → Option (Int × List Int)
+def listNextI : List Int → Option (Int × List Int)
   | [] => none
   | a :: t => some (a, t)
 
 def srcM (xs : List Int) : AnyM :=
-  { St := FromIter.St (List Int) Int, Loc := FromIter.Loc, M := FromIter.machine Int listNext xs, nexts := fun s => s.nexts }
+  { St := FromIter.St (List Int) Int, Loc := FromIter.Loc, M := FromIter.machine Int listNextI xs, nexts := fun s => s.nexts }
 
 def thenM (A B : AnyM) : AnyM :=
   { St := A.St × B.St, Loc := List (CFr A.Loc B.Loc), M := compose A.M B.M, nexts := fun s => A.nexts s.1 + B.nexts s.2 }
